@@ -109,10 +109,19 @@ Section NN.
           repeat split; auto. apply NN_put; auto. apply NN_put; auto.
     Qed.
 
+    Lemma exec_vote_nn bno s t sd rc r :
+      exec_vote cfg bno s t sd rc = Some r -> NN s -> NCL sd -> NCL rc -> nn3 sd rc r.
+    Proof.
+      unfold exec_vote. intros H Hs Ha Hb.
+      destruct (stk s !! a_id sd) as [[? ?]|]; [|discriminate].
+      repeat (match type of H with (if ?c then _ else _) = _ => destruct c end; try discriminate).
+      injection H as <-. simpl. auto.
+    Qed.
+
     Lemma exec_governance_nn bno s t sd rc r :
       exec_governance is_name cfg bno s t sd rc = Some r -> NN s -> NCL sd -> NCL rc -> nn3 sd rc r.
     Proof.
-      unfold exec_governance. destruct (t_kind t); eauto using exec_stake_nn, exec_unstake_nn, exec_name_nn.
+      unfold exec_governance. destruct (t_kind t); eauto using exec_stake_nn, exec_unstake_nn, exec_name_nn, exec_vote_nn; discriminate.
     Qed.
   End G.
 
